@@ -424,6 +424,7 @@ def case_session(casing: str, litkind: str, rng: random.Random) -> list:
         go([cw(b'STORE'), b' 2 ', cw(b'+FLAGS.SILENT'), b' (\\Deleted)'])
         go([cw(b'SEARCH'), b' ', cw(b'DELETED'), b' ', cw(b'OR SEEN LARGER'), b' 10'])
         go([cw(b'UID'), b' ', cw(b'SEARCH'), b' ', cw(b'SUBJECT'), b' big'])
+        go([cw(b'SEARCH'), b' ', cw(b'RETURN'), b' (', cw(b'COUNT MIN'), b') ', cw(b'UNSEEN')])
         go([cw(b'COPY'), b' 1 Sent'])
         go([cw(b'EXPUNGE')])
         go([cw(b'LIST'), b' "" *'])
@@ -486,7 +487,7 @@ def siblings_chunk(args):
 NAME_REPS = {
     'CH': ['a', 'Z', '7', '+', '~', ' ', '.'],
     'AMP': ['&'], 'DASH': ['-'], 'COMMA': [','],
-    'U': ['\xe9', '日', '\U0001f600', '\xff'],
+    'U': ['\xe9', '日', '\U0001f600', '\xff', '\u0131', '\u017f', '\u212a'],   # incl. letters whose upper()/casefold() is ASCII
     'CTLX': ['\x01', '\x7f', '\x1f'],
     'CTLD': ['\t', '\r', '\n'],
 }
